@@ -14,7 +14,7 @@ import decimal
 
 from hypothesis import strategies as st
 
-from pbt import canon, refcodec, spec_table, strategies as S
+from pbt import canon, harvest, refcodec, spec_table, strategies as S
 from pbt.refcodec import MsTimestamp, s as sint, u as uint
 
 MAXDT = refcodec.MAX_DATETIME_SECONDS
@@ -51,6 +51,10 @@ def timestamps():
 def raw_strings():
     """long-string payloads: mostly UTF-8, sometimes not"""
     return st.one_of(
+        st.sampled_from([s.encode('utf-8', 'surrogatepass')
+                         for s in harvest.literals()[0]] + harvest.literals()[1] +
+                        [b'\xef\xbb\xbf', b'\xef\xbb\xbfhi', b'\xff\xfeh\x00',
+                         b'\xfe\xff\x00h', b'\xef\xbb\xbf\xef\xbb\xbf']),
         S.texts(30).map(lambda t: t.encode('utf-8')),
         S.texts(30).map(lambda t: t.encode('utf-8')),
         st.binary(max_size=30),
@@ -89,12 +93,18 @@ def wire_leaves():
 HOSTILE_KEYS = ['{}', '{0}', '{1}', '{x}', '{!r}', '{0.real}', '{0[0]}', '{:d}', 'a{}b',
                 '{', '}', '{{}}', '%s', '%d', '%(a)s', '%', '%%', '${x}', '$x', '\\',
                 '\\x', '\\N{x}', '\n', '\x00', "'", '"', '%s%s%s', '{}{}', '\ud7ff',
-                '__class__', '{self}', '{key}', '{error}', '{value}']
+                '__class__', '{self}', '{key}', '{error}', '{value}',
+                # long runs of one character class closed by a foreign character: the
+                # classic shape that makes a backtracking regular expression explode
+                'a' * 30 + '!', 'a' * 48 + ' ', 'ab' * 20 + ':', 'a.' * 24 + '!',
+                'a-' * 24 + '--', '0' * 40 + 'x', ' ' * 40 + '\t', 'A' * 64 + '\x00',
+                'x-' + 'k' * 40 + ':v', '_' * 36 + '-', 'a' * 26 + '\u00e9']
 
 
 def wire_keys():
     return st.one_of(S.table_keys(), S.shortstrs(255), st.just(''),
                      st.sampled_from(HOSTILE_KEYS),
+                     st.sampled_from(harvest.key_like() or ['k']),
                      st.text(st.characters(min_codepoint=0x61, max_codepoint=0x7a),
                              min_size=1, max_size=4))
 
@@ -342,7 +352,8 @@ def wire_arg(dotted, f):
     if t == 'bit':
         return st.booleans()
     if t == 'shortstr':
-        return st.one_of(S.shortstrs(), S.shortstrs(), REFUSED_NAMES)
+        return st.one_of(S.shortstrs(), S.shortstrs(), REFUSED_NAMES,
+                         st.sampled_from(harvest.key_like() or ['k']))
     if t == 'longstr':
         return st.one_of(raw_strings(), raw_strings(),
                          S.longstrs().map(lambda x: x.encode('utf-8')))
@@ -596,4 +607,45 @@ def catalogue_frames():
     out.append({'kind': 'body', 'ch': 9, 'data': b'hello \xce world'})
     out.append({'kind': 'heartbeat', 'ch': 0})
     out.append({'kind': 'protocol', 'ch': 0, 'version': (0, 9, 1)})
+    return out
+
+
+def dictionary_words():
+    """identifier-like literals harvested from the tree under test"""
+    import re
+    pat = re.compile(r'^[A-Za-z_$#x][A-Za-z0-9_.$#:-]{2,40}$')
+    return [w for w in harvest.key_like() if pat.match(w)]
+
+
+def dictionary_frames():
+    """well-formed frames in which every harvested identifier-like literal appears as a
+    table key next to a value of every type tag (in a method table and in the headers of a
+    content header that carries all 14 properties), and as a short-string value"""
+    out = []
+    values = [v for _, v in ALL_TAG_TABLE]
+    allprops = {}
+    for j, (n, _, w, _) in enumerate(spec_table.PROPERTIES):
+        allprops[n] = {'octet': 1 + j % 2, 'shortstr': 'p%d' % j, 'table': [],
+                       'timestamp': 1500000000 + j}[w]
+    for word in dictionary_words():
+        for v in values:
+            out.append({'kind': 'method', 'cls': 'Queue.Declare', 'ch': 1,
+                        'args': {'ticket': 0, 'queue': 'q', 'passive': False,
+                                 'durable': True, 'exclusive': False,
+                                 'auto_delete': False, 'nowait': False,
+                                 'arguments': [[word, v], ['other', ['b', 1]]]}})
+            out.append({'kind': 'header', 'ch': 1, 'body_size': 1, 'weight': 0,
+                        'unused_bit': False, 'extra_words': [],
+                        'props': dict(allprops, headers=[[word, v]])})
+        strprops = {n: word for n, _, w, _ in spec_table.PROPERTIES if w == 'shortstr'}
+        out.append({'kind': 'header', 'ch': 1, 'body_size': 1, 'weight': 0,
+                    'unused_bit': False, 'extra_words': [],
+                    'props': dict(allprops, **strprops)})
+        out.append({'kind': 'method', 'cls': 'Basic.Publish', 'ch': 1,
+                    'args': {'ticket': 0, 'exchange': word, 'routing_key': word,
+                             'mandatory': False, 'immediate': True}})
+        out.append({'kind': 'method', 'cls': 'Connection.StartOk', 'ch': 0,
+                    'args': {'client_properties': [[word, ['S', word.encode()]]],
+                             'mechanism': word, 'response': word.encode(),
+                             'locale': word}})
     return out
